@@ -305,3 +305,90 @@ def threads(arg):
         sys.setswitchinterval(old)
     return {"records": results, "errors": errors, "yields": _fp["yields"], "handoff_sites": len(_fp["handoff_sites"]), "leaks": leaks, "balance_checks": balance[0],
             "alive": sum(1 for t in ths if t.is_alive())}
+
+
+def overlap(arg):
+    """Two (or three) runs on ONE provider object in different threads whose sessions overlap in a prescribed order - nested (A enters, B enters,
+    B ends, A ends), crossing (A enters and analyses, B enters, A ends, B ends), both entered before either analyses - driven by gates at
+    MetaDataSession.__enter__/__exit__ (a turn-based schedule, no timing). What the overlapping runs themselves report is NOT judged (they share
+    a provider, which the property leaves open); judged is what the property states for every ending: once all runs have ended the provider
+    answers for every table learned meanwhile exactly as a fresh provider, and a following run on it equals that run on a fresh provider.
+    arg: scripts{name: sql}, order [..'A.enter','A.at_exit','B.enter',..], after: sql, metadata"""
+    import threading
+
+    from sqllineage.core import metadata_provider as mp
+    from sqllineage.core.models import Table
+
+    md = arg.get("metadata") or {}
+    prov = make("dummy", md)
+    order = list(arg["order"])
+    cv = threading.Condition()
+    pos = [0]
+    stuck = []
+
+    def turn(point):
+        with cv:
+            if point not in order:
+                return
+            ok = cv.wait_for(lambda: pos[0] < len(order) and order[pos[0]] == point, timeout=60)
+            if not ok:
+                stuck.append(point)
+                return
+            pos[0] += 1
+            cv.notify_all()
+
+    o_enter, o_exit = mp.MetaDataSession.__enter__, mp.MetaDataSession.__exit__
+
+    def g_enter(self):
+        name = threading.current_thread().name
+        if self.metadata_provider is prov and name in arg["scripts"]:
+            turn(name + ".enter")
+        return o_enter(self)
+
+    def g_exit(self, *a):
+        name = threading.current_thread().name
+        if self.metadata_provider is prov and name in arg["scripts"]:
+            turn(name + ".at_exit")
+            turn(name + ".exit")
+        return o_exit(self, *a)
+
+    outcomes, learned = {}, set()
+    o_reg = mp.MetaDataProvider.register_session_metadata
+
+    def g_reg(self, table, columns):
+        if self is prov:
+            learned.add(str(table))
+        return o_reg(self, table, columns)
+
+    def work(name, sql):
+        try:
+            rec = observe.run_case({"sql": sql, "dialect": arg.get("dialect", "ansi"), "want": []}, provider=prov)
+            outcomes[name] = "ok" if rec["outcome"] == "ok" else rec["outcome"]["exc_type"]
+        except Exception as e:
+            outcomes[name] = "HARNESS:" + repr(e)
+
+    mp.MetaDataSession.__enter__, mp.MetaDataSession.__exit__, mp.MetaDataProvider.register_session_metadata = g_enter, g_exit, g_reg
+    try:
+        ths = [threading.Thread(target=work, args=(n, s), name=n) for n, s in arg["scripts"].items()]
+        for t in ths:
+            t.start()
+        for t in ths:
+            t.join(timeout=120)
+        alive = [t.name for t in ths if t.is_alive()]
+    finally:
+        mp.MetaDataSession.__enter__, mp.MetaDataSession.__exit__, mp.MetaDataProvider.register_session_metadata = o_enter, o_exit, o_reg
+    out = {"outcomes": outcomes, "schedule_completed": pos[0] == len(order) and not stuck and not alive, "stuck": stuck, "alive": alive, "learned": sorted(learned), "bad": []}
+    if not out["schedule_completed"]:
+        return out
+    for t in sorted(learned):
+        try:
+            got = [str(c) for c in prov.get_table_columns(Table(t))]
+        except Exception as e:
+            got = "EXC:" + type(e).__name__
+        want = _fresh_answer(md, t)
+        if got != want:
+            out["bad"].append({"what": "provider remembers a table learned during an ended run", "table": t, "answers": got, "fresh_provider_answers": want})
+    after = {"sql": arg["after"], "dialect": arg.get("dialect", "ansi"), "want": []}
+    out["after_reused"] = pub(observe.run_case(dict(after), provider=prov))
+    out["after_fresh"] = pub(observe.run_case(dict(after), provider=make("dummy", md)))
+    return out
